@@ -14,7 +14,7 @@
    multi-member gunzip, untar) are Section variables. File conflicts between
    packages (C07), the cache's crash/concurrency protocol (C19) and the cache
    directory's path (C18) are not modelled. *)
-From Apko Require Import Base.Prelude.
+From Apko Require Import Base.Prelude Generated.C05Sum.
 Open Scope string_scope. Open Scope list_scope.
 
 (* tar.TypeReg / TypeSymlink / TypeDir / TypeLink (hard link) / anything else *)
@@ -65,6 +65,28 @@ Fixpoint is_hex (s : string) : bool :=
   | String a (String b r) => is_hex_digit a && is_hex_digit b && is_hex r
   | String _ EmptyString => false
   end.
+
+(* encoding/hex.DecodeString: pairs of hex digits of either case; odd length or any
+   other character is an error *)
+Definition hexdig (c : ascii) : option N :=
+  let n := N_of_ascii c in
+  if ((48 <=? n) && (n <=? 57))%N then Some (n - 48)%N
+  else if ((97 <=? n) && (n <=? 102))%N then Some (n - 87)%N
+  else if ((65 <=? n) && (n <=? 70))%N then Some (n - 55)%N
+  else None.
+Fixpoint unhex (s : string) : option (list N) :=
+  match s with
+  | EmptyString => Some []
+  | String a (String b r) =>
+      match hexdig a, hexdig b, unhex r with
+      | Some x, Some y, Some l => Some ((16 * x + y)%N :: l)
+      | _, _, _ => None
+      end
+  | String _ EmptyString => None
+  end.
+(* strings.TrimPrefix(s, p) when HasPrefix(s, p) *)
+Fixpoint drop_prefix (p s : string) : string :=
+  match p, s with String _ p', String _ s' => drop_prefix p' s' | _, _ => s end.
 
 Fixpoint assoc_s {A} (x : string) (l : list (string * A)) : option A :=
   match l with [] => None | (k, v) :: l' => if String.eqb x k then Some v else assoc_s x l' end.
@@ -214,6 +236,20 @@ Section Oracles.
   (* the checksum the handle records: base64 of the string with one leading
      "Q1" removed *)
   Definition h_sum (h : handle) : option (list N) := b64 (strip_q1 (h_chk h)).
+
+  (* checksumFromHeader (install.go), used by checkSums and by both installers: the PAX
+     record named [pax_checksum_key]; absent (or no PAX records at all) = no checksum;
+     with the prefix [checksum_b64_prefix] the rest is base64, otherwise the whole value
+     is hex; an undecodable value is an error. Key and prefix are read from the source
+     (Generated/C05Sum.v). [recs]: header.PAXRecords (a Go map: keys are unique). *)
+  Definition checksum_from_header (recs : list (string * string)) : recsum :=
+    match assoc_s pax_checksum_key recs with
+    | None => SumNone
+    | Some v =>
+        if String.prefix checksum_b64_prefix v
+        then match b64 (drop_prefix checksum_b64_prefix v) with Some d => SumSome d | None => SumBad end
+        else match unhex v with Some d => SumSome d | None => SumBad end
+    end.
 
   Definition mk_ctl (raw : list N) : option control :=
     match ctl_view raw with
